@@ -216,6 +216,38 @@ def offending(case):
     return insert_at(from_json(case['formula']), list(case['path']), make)
 
 
+def run_twice_unsupported(kind, f, vs, data):
+    """The rejected call is repeated on the same object: it must be rejected the same way (RTAMTException) again."""
+    from ..monitors import build
+    dense = kind.startswith('ct')
+    text = dense_text(f, Q) if dense else 'out = ' + show(f)
+    outcomes = []
+    try:
+        spec = build({'dt_on': 'dt_on', 'dt_on_past': 'dt_on', 'ct_off': 'ct_off', 'ct_on': 'ct_on', 'ct_on_past': 'ct_on'}[kind],
+                     text, list(vs), parse=False)
+        spec.parse()
+        if kind.endswith('_past'):
+            spec.pastify()
+    except Exception as e:  # noqa
+        return [exc_outcome(e)]
+    for _ in range(2):
+        try:
+            if kind in ('dt_on', 'dt_on_past'):
+                out = spec.update(0, [(v, data[v][0]) for v in vs])
+            elif kind == 'ct_off':
+                sig = to_time({v: data[v] for v in vs}, Q)
+                out = spec.evaluate(*[[v, sig[v]] for v in vs])
+            else:
+                sig = to_time({v: data[v] for v in vs}, Q)
+                out = spec.update(*[[v, sig[v]] for v in vs])
+            outcomes.append(('ok', out))
+        except RecursionError:
+            raise
+        except Exception as e:  # noqa
+            outcomes.append(exc_outcome(e))
+    return outcomes
+
+
 def check_unsupported(case):
     kind = case['kind']
     g = offending(case)
@@ -234,6 +266,13 @@ def check_unsupported(case):
         return FAIL('accepted:%s:%s' % (kind, what), desc + '\nno exception; first evaluation returned %r' % (o[1],), labels)
     if not o[2]:
         return FAIL('wrong-exception:%s:%s:%s@%s' % (kind, what, o[1], o[4]), desc + '\n%s raised %s (not RTAMTException): %s at %s' % (o[5], o[1], o[3], o[4]), labels)
+    if o[5] == 'evaluate':
+        for i, o2 in enumerate(run_twice_unsupported(kind, g, vs, data)):
+            if o2[0] == 'ok':
+                return FAIL('accepted-on-retry:%s:%s' % (kind, what), desc + '\nattempt %d of the same call on the same object returned %r' % (i + 1, o2[1]), labels)
+            if not o2[2]:
+                return FAIL('wrong-exception-on-retry:%s:%s' % (kind, o2[1]), desc + '\nattempt %d of the same call raised %s (not RTAMTException): %s at %s' % (
+                    i + 1, o2[1], o2[3], o2[4]), labels)
     return PASS(nested, labels + ['rejected-at:' + o[5]])
 
 
@@ -262,7 +301,56 @@ def cand_unsupported(case):
             yield c
 
 
-LANES = []
+@st.composite
+def recover_cases(draw, tier):
+    f, vs = draw(F.formulas(DT_BFUT))
+    b = draw(st.integers(0, 3))
+    g = ('tun', draw(st.sampled_from(['eventually', 'always'])), draw(st.integers(0, b)), b, f)
+    n = (F.horizon(g) or 0) + draw(st.integers(1, 4))
+    return {'formula': g, 'vars': vs, 'trace': draw(F.traces(vs, n=n))}
+
+
+def check_recover(case):
+    """A bounded-future specification is first used without pastify() (rejected with RTAMTException), then pastified
+    and used again on the same object: from then on it is a supported specification and update() must return normally,
+    with the same values as an object that was pastified up front."""
+    from ..monitors import build
+    f = from_json(case['formula'])
+    vs = [v for v in case['vars'] if v in F.fvars(f)]
+    labels = ['kind:recover'] + feature_labels(f)
+    if not vs or F.horizon(f) is None:
+        return DISCARD('no-variable-or-unbounded', labels)
+    tr = {v: [float(x) for x in case['trace'][v]] for v in vs}
+    n = len(tr[vs[0]])
+    text = 'out = ' + show(f)
+    desc = 'spec: %s\ntrace: %s' % (text, tr)
+    try:
+        ref_spec = build('dt_on', text, vs, pastify=True)
+        ref = [ref_spec.update(i, [(v, tr[v][i]) for v in vs]) for i in range(n)]
+    except Exception as e:  # noqa
+        return DISCARD('pastified-raises(C03/C17):' + type(e).__name__, labels)
+    spec = build('dt_on', text, vs)
+    try:
+        spec.update(0, [(v, tr[v][0]) for v in vs])
+        return FAIL('accepted:dt_on:future-without-pastify', desc + '\nupdate() without pastify() returned a value', labels)
+    except Exception as e:  # noqa
+        o = exc_outcome(e)
+        if not o[2]:
+            return FAIL('wrong-exception:recover:%s' % o[1], desc + '\nupdate() without pastify() raised %s: %s' % (o[1], o[3]), labels)
+    try:
+        spec.pastify()
+        got = [spec.update(i, [(v, tr[v][i]) for v in vs]) for i in range(n)]
+    except Exception as e:  # noqa
+        o = exc_outcome(e)
+        return FAIL('crash:recover:%s@%s' % (o[1], o[4].split(':')[-1]), desc + '\nafter the rejected update(), pastify() + update() raised %s: %s at %s' % (
+            o[1], o[3], o[4]), labels)
+    h = F.horizon(f)
+    if got[h:] != ref[h:]:
+        return FAIL('recover-differs', desc + '\nafter rejected update + pastify: %r\npastified up front: %r' % (got, ref), labels)
+    return PASS(True, labels)
+
+
+LANES = [Lane('recover', lambda tier: recover_cases(tier), check_recover, 800, 8000, cand_supported)]
 for _k in KINDS:
     LANES.append(Lane('sup_' + _k, (lambda k: lambda tier: supported_cases(tier, k))(_k), check_supported, 1500, 20000, cand_supported))
 for _k in UKINDS:
